@@ -51,7 +51,8 @@ Theorem c13_reqattr_first_map :
     struthy (rq_name r) = false -> rq_friendly r = Some f -> is_empty f = false ->
     (forall c', In c' cs1 -> sassoc (lower f) (cv_to c') = None) -> sassoc (lower f) (cv_to c) = Some n ->
     exists q, ra_resolve (cs1 ++ c :: cs2) r = Some q /\ name_of q = Some n /\ friendly_of q = Some f
-              /\ format_of q = if struthy (rq_format r) then rq_format r else Some (cv_format c).
+              /\ (is_empty (cv_format c) = false ->
+                  format_of q = if struthy (rq_format r) then rq_format r else Some (cv_format c)).
 Proof. exact reqattr_first_map. Qed.
 Print Assumptions c13_reqattr_first_map.
 
@@ -69,31 +70,27 @@ Theorem c13_reqattr_name_present :
 Proof. exact reqattr_name_present. Qed.
 Print Assumptions c13_reqattr_name_present.
 
-(* finding 10: an attribute the maps know, spelt with name AND friendly_name but no name_format, comes out without
-   the required NameFormat; outside that class every attribute the maps know is valid; with the proposed repair all are *)
-Theorem c13_reqattr_no_format_refuted :
+(* finding 10 (repaired by 711f9f2e: a third step takes a still missing name format from the first map whose _fro knows
+   the name): the code before it wrote an attribute the maps know, spelt with name AND friendly_name but no name_format,
+   without the required NameFormat; now every attribute the maps know is valid, however it is spelt, and nothing changes
+   where the two loops had left a usable format *)
+Theorem c13_reqattr_no_format_v0_refuted :
   exists cs r q, rattr_known cs r = true /\ ra_resolve cs r = Some q
                  /\ valid live_table (CK k_extension_requested_attributes_RequestedAttribute)
-                          (to_tree live_table (requested_attribute q)) = false.
-Proof. exact reqattr_no_format_refuted. Qed.
-Print Assumptions c13_reqattr_no_format_refuted.
+                          (to_tree live_table (requested_attribute_v0 q)) = false.
+Proof. exact reqattr_no_format_v0_refuted. Qed.
+Print Assumptions c13_reqattr_no_format_v0_refuted.
 
-Theorem c13_reqattr_known_guarded_valid :
-  forall cs r, rattr_known cs r = true -> rattr_guard r = true ->
-               exists q, ra_resolve cs r = Some q /\ owf live_table (requested_attribute q) = true.
-Proof. exact reqattr_known_guarded_valid. Qed.
-Print Assumptions c13_reqattr_known_guarded_valid.
-
-Theorem c13_reqattr_fixed_valid :
+Theorem c13_reqattr_known_valid :
   forall cs r, rattr_known cs r = true ->
-               exists q, ra_resolve cs r = Some q /\ owf live_table (requested_attribute_fixed cs q) = true.
-Proof. exact reqattr_fixed_valid. Qed.
-Print Assumptions c13_reqattr_fixed_valid.
+               exists q, ra_resolve cs r = Some q /\ owf live_table (requested_attribute q) = true.
+Proof. exact reqattr_known_valid. Qed.
+Print Assumptions c13_reqattr_known_valid.
 
-Theorem c13_reqattr_fixed_conservative :
-  forall cs q, struthy (format_of q) = true -> requested_attribute_fixed cs q = requested_attribute q.
-Proof. exact fixed_same. Qed.
-Print Assumptions c13_reqattr_fixed_conservative.
+Theorem c13_reqattr_fix_conservative :
+  forall q, struthy (format_of_v0 q) = true -> requested_attribute q = requested_attribute_v0 q.
+Proof. exact fix_conservative. Qed.
+Print Assumptions c13_reqattr_fix_conservative.
 
 (* the tie to the source TEXT: create_requested_attribute_node as translated on this run (coq/gen/C13Src2.v) computes,
    for every list of attribute dictionaries and every list of converters, what Builders.ra_resolve_all computes *)
